@@ -1,1 +1,2 @@
 pub use h_core::util;
+pub mod txgen;
